@@ -233,15 +233,42 @@ func c12Boundary(x *engine.X, tier string) {
 		data []byte
 	}
 	var gots []got
+	// the caller's buffer: a slice of its own, or a window into a larger array (len < cap) guarded by canaries —
+	// "truncated to the buffer" is about the slice's length, not its capacity
+	window := x.Deviate(2, "the buffer is a window into a larger array") == 1
+	readAll := target == 0 && x.Pick(2, "AsyncReadFrom / AsyncReadAllFrom") == 1
 	var issue func()
 	issue = func() {
 		buf := make([]byte, bl)
+		var arena []byte
+		if window {
+			arena = make([]byte, bl+48)
+			for i := range arena {
+				arena[i] = 0xC7
+			}
+			buf = arena[16 : 16+bl]
+		}
+		checkCanary := func(m int) {
+			if m > len(buf) {
+				x.Fail("udp.read/count-exceeds-buffer", "a read into a %d-byte buffer (capacity %d) reported n=%d", len(buf), cap(buf), m)
+			}
+			for i, c := range arena {
+				if (i < 16 || i >= 16+bl) && c != 0xC7 {
+					x.Fail("udp.read/wrote-outside-buffer", "a read into a %d-byte window of a larger array changed byte %d of the array, outside the window [16,%d)", bl, i, 16+bl)
+				}
+			}
+		}
 		calls := 0
 		if forced {
 			ioc.Dispatched = sonic.MaxCallbackDispatch
 		}
 		if target == 0 {
-			pc.AsyncReadFrom(buf, func(err error, m int, from net.Addr) {
+			rd := pc.AsyncReadFrom
+			if readAll {
+				rd = pc.AsyncReadAllFrom
+			}
+			rd(buf, func(err error, m int, from net.Addr) {
+				checkCanary(m)
 				calls++
 				if calls > 1 {
 					x.Fail("udp.read/callback-twice", "callback ran %d times", calls)
@@ -254,6 +281,7 @@ func c12Boundary(x *engine.X, tier string) {
 			})
 		} else {
 			mp.AsyncRead(buf, func(err error, m int, from netip.AddrPort) {
+				checkCanary(m)
 				calls++
 				if calls > 1 {
 					x.Fail("udp.read/callback-twice", "callback ran %d times", calls)
@@ -298,7 +326,7 @@ func c12Boundary(x *engine.X, tier string) {
 			x.Fail("udp.read/datagram-not-delivered", "%d datagrams of %d bytes were sent, read %d did not complete after 3 polls", burst, n, had)
 		}
 	}
-	x.Note("read size=%d buf=%d burst=%d target=%d forced=%v", n, bl, burst, target, forced)
+	x.Note("read size=%d buf=%d burst=%d target=%d forced=%v window=%v readAll=%v", n, bl, burst, target, forced, window, readAll)
 	for i, g := range gots {
 		want := sent[i].payload
 		if len(want) > bl {
